@@ -148,7 +148,6 @@ def neg (a : Word) : Except String Word :=
 /-- Packed value of a string literal. -/
 def packString (bytes : List Byte) : Except String (List Word) :=
   if bytes.length ≥ 256 then .error "string literal longer than 255 characters"
-  else if bytes.any (fun b => b.toNat ≥ 128) then .error "non-ASCII character in string literal"
   else .ok (wordsOfBytes (BitVec.ofNat 8 bytes.length :: bytes))
 
 /-! ### Constant expressions (`val` definitions, array lengths) -/
